@@ -552,7 +552,7 @@ def _gateway(b, gtype):
 
 def t_IPSECKEY(b):
     b.u8()
-    gt = b.draw(st.integers(0, 3))
+    gt = b.draw(st.sampled_from([0, 1, 2, 3, 3, 3]))
     b.u8(gt)
     b.u8()
     _gateway(b, gt)
@@ -561,7 +561,7 @@ def t_IPSECKEY(b):
 
 def t_AMTRELAY(b):
     b.u8()
-    gt = b.draw(st.integers(0, 3))
+    gt = b.draw(st.sampled_from([0, 1, 2, 3, 3, 3]))
     b.u8(gt | (0x80 if b.draw(st.booleans()) else 0))
     _gateway(b, gt)
 
